@@ -112,7 +112,7 @@ pub fn run(prop: &str, tier: Tier, seed: u64, replay: Option<&str>) -> i32
             fuzz_target: None,
             prop: "C10",
             engine: &engine,
-            quick_cases: 30_000,
+            quick_cases: 40_000,
             thorough_cases: 200_000,
             rule: "cases = histories of prepare / clone / drop / garbage-collect / app.update / manual-despawn / spawn-child / reparent / worker-thread-drop operations, injected faults (a clone dropped by the unwinding of a caught panic; worker threads that die holding clones) and clones stored in components of other entities (dropped in the middle of a collection pass) decoded from proptest byte strings; after every operation the live set must equal the reference-count model; non-trivial = >= 1 clone dropped out of creation order and >= 2 collections; distinct = distinct case hashes".into(),
             assumptions: vec![
